@@ -137,6 +137,14 @@ add("C20", "fault_enumeration", "DESIGN.md §2 C20",
     "a dead connection = a wfile whose k-th and later write() raise a fresh error instance; responses written by a child "
     "process directly to the socket are not covered; /proc/self/fd is the descriptor census")
 
+add("C19", "fault_enumeration", "DESIGN.md §2 C19",
+    "Complete enumeration of configurations x injected failing privileged call, driven through initialize() with recorded "
+    "system calls; oracle = predicates over the ordered trace; plus a forked child performing the real chroot/setgid/setuid",
+    "The domain (8 option combinations x each privileged call failing in turn, 38 cases, + 3 real-chroot children when "
+    "running as root) is finite and enumerated completely on every run; bind and TLS key loading are real.",
+    "os.chroot/chdir/setgroups/setregid/setreuid and pwd/grp lookups are replaced by recorders in the recorded cases; the "
+    "real child needs euid 0 and is skipped (counted) otherwise")
+
 NOT_APPLICABLE = []
 
 
